@@ -14,11 +14,21 @@ def _k(extra2=None, extra3=None, t3="quick"):
     return [dict(id="k2", defines=dict(K2, **(extra2 or {})), unwind=8, label=L2, tier="quick"),
             dict(id="k3", defines=dict(K3, **(extra3 or {})), unwind=10, label=L3, tier=t3)]
 
+# every function-pointer call site of backend.c + block_processor.c; the ones
+# that the scenario cannot reach go to a stub that fails C09.bp.unreachable
+BP_FP = {"dequeue": "stub_dequeue", "get_status": "stub_get_status",
+         "submit": "stub_submit", "write_data_block": "stub_write_data_block",
+         "destroy": "stub_unreach_destroy", "copy": "stub_unreach_copy",
+         "read_at": "stub_unreach_read_at", "do_block": "stub_unreach_do_block",
+         "get_worker_count": "stub_unreach_get_worker_count",
+         "set_worker_ptr": "stub_unreach_set_worker_ptr"}
+
 HARNESSES = [
     dict(name="bp_sync", file="bp_sync.c", label="bounded(blocks in pool <= 2)", unwind=5, timeout=600,
-         fp={"dequeue": "stub_dequeue", "get_status": "stub_get_status", "submit": "stub_submit",
-             "write_data_block": "stub_write_data_block"},
+         fp=BP_FP,
          cases=[dict(id="nb2", defines={"NB": 2}, tier="quick")]),
+    dict(name="bp_t", file="bp_t.c", label="bounded(blocks in pool <= 2)", unwind=5, timeout=600,
+         fp=BP_FP, cases=[dict(id="nb2", defines={"NB": 2}, tier="quick")]),
     dict(name="store_completed", file="store_completed.c", label=L2, timeout=600, cases=_k()),
     dict(name="get_next", file="get_next.c", label=L2, timeout=600, cases=_k()),
     dict(name="worker_proc", file="worker_proc.c", label=L2, timeout=900,
